@@ -1344,8 +1344,65 @@ func (m *Machine) hostValue(v Value, t types.Type) (interface{}, bool) {
 			}
 		}
 		return m.hostValue(x.V, x.T)
+	case *Value:
+		if x == nil {
+			return (*int)(nil), true // fmt renders every nil pointer as <nil>
+		}
 	}
 	return describe(v), true
+}
+
+// stringerText: fmt's %v / %s / Sprint of an operand whose dynamic type has an Error() or String() method (of a
+// package under test or a harness) prints what that method returns; a panic of the method on a nil receiver prints
+// "<nil>" (fmt's documented behaviour). ok is false when there is no such method or the result is symbolic.
+func (m *Machine) stringerText(fr *frame, a Value) (text string, ok bool) {
+	i, isIface := a.(Iface)
+	if !isIface || i.T == nil {
+		return "", false
+	}
+	if types.Identical(i.T, m.P.errorStringPtr) {
+		return "", false // errors made by errors.New: handled by hostValue
+	}
+	ms := m.P.Prog.MethodSets.MethodSet(i.T)
+	for _, name := range []string{"Error", "String"} {
+		sel := ms.Lookup(nil, name)
+		if sel == nil {
+			continue
+		}
+		sig, _ := sel.Type().(*types.Signature)
+		if sig == nil || sig.Params().Len() != 0 || sig.Results().Len() != 1 || !types.Identical(sig.Results().At(0).Type(), types.Typ[types.String]) {
+			continue
+		}
+		fn := m.P.Prog.MethodValue(sel)
+		if fn == nil || fn.Pkg == nil || !m.P.repoPkgs[fn.Pkg] {
+			return "", false
+		}
+		var res Value
+		panicked := false
+		func() {
+			defer func() {
+				if r := recover(); r != nil {
+					if _, isGo := r.(*goPanic); isGo {
+						panicked = true
+						return
+					}
+					panic(r)
+				}
+			}()
+			res = m.call(fn, []Value{i.V}, fr, 0)
+		}()
+		if panicked {
+			if p, isPtr := i.V.(*Value); isPtr && p == nil {
+				return "<nil>", true
+			}
+			return "", false
+		}
+		if str, isStr := res.(string); isStr {
+			return str, true
+		}
+		return "", false
+	}
+	return "", false
 }
 
 func (m *Machine) sprintf(fr *frame, format Value, args Slice) Value {
@@ -1354,6 +1411,10 @@ func (m *Machine) sprintf(fr *frame, format Value, args Slice) Value {
 	var symArg Value
 	for i := 0; i < args.Len; i++ {
 		a := args.Arr.Elems[args.Off+i]
+		if txt, isStringer := m.stringerText(fr, a); isStringer {
+			hv = append(hv, txt) // %v / %s of a Stringer (the verbs these code bases use): the method's text
+			continue
+		}
 		h, ok := m.hostValue(a, nil)
 		if !ok {
 			allConc = false
